@@ -46,12 +46,9 @@ Overlay(a, b) ==
 RECURSIVE DocOf(_, _, _, _), ValueFor(_, _, _, _, _)
 ValueFor(S, t, d, full, fuel) ==       \* the value a field of type t with declared default d must hold
   LET r == Resolve(S, t) IN
-  IF r.k = "struct" /\ d.j = "obj"
-  THEN LET ov == JObj([i \in DOMAIN d.ps |->
-                       LET fs == FieldsNamed(r, d.ps[i].k) IN
-                       IF fs = <<>> THEN d.ps[i] ELSE P(d.ps[i].k, ValueFor(S, fs[1].t, d.ps[i].v, full, fuel))])
-       IN Overlay(DocOf(S, r, full, fuel), ov)
-  ELSE d
+  \* partial overrides over the struct's own expectation, member by member and recursively (Overlay): a member the override
+  \* does not mention keeps what the struct itself declares for it, INCLUDING that member's own struct-valued default
+  IF r.k = "struct" /\ d.j = "obj" THEN Overlay(DocOf(S, r, full, fuel), d) ELSE d
 DocOf(S, t, full, fuel) ==             \* t is a struct type
   LET inc == SelectSeq(t.fields, LAMBDA f : Constrained(S, f) \/ (full /\ f.req))
   IN JObj([i \in DOMAIN inc |->
@@ -77,8 +74,25 @@ HoldsV(e, r) ==
 \* reading rule (NOTES_C10C11): an OPTIONAL field whose declared default is an empty collection holds its default
 \* when it is absent as well (Go's omitempty cannot spell `[]`; absent and empty are the same default for a reader)
 EmptyColl(e) == (e.j = "arr" /\ e.xs = <<>>) \/ (e.j = "obj" /\ e.ps = <<>>)
-AbsentOK(S, f) == ~f.req /\ EmptyColl(FieldExpect(S, f))
+AbsentOK(S, f) == ~f.req /\ (EmptyColl(FieldExpect(S, f)) \/ EmptyColl(f.def))     \* declared `{}` on a struct: "its own defaults"
 FieldHolds(S, f, v) == IF Has(v.ps, f.n) THEN HoldsV(FieldExpect(S, f), Get(v.ps, f.n)) ELSE AbsentOK(S, f)
+
+\* e: the expected (merged) value of a struct-typed field with a declared default, r its struct type, v the real value:
+\* every expected member is held to its value by the rule of ITS field (nested structs member by member, an optional
+\* member expected empty may be absent), so that a failure names the member and not the whole struct
+RECURSIVE InsidePaths(_, _, _, _, _)
+InsidePaths(S, r, e, v, path) ==
+  IF v.j # "obj" THEN {path}
+  ELSE UNION {
+    LET k  == e.ps[i].k
+        ev == e.ps[i].v
+        gs == FieldsNamed(r, k) IN
+    IF gs = <<>> THEN (IF Has(v.ps, k) /\ HoldsV(ev, Get(v.ps, k)) THEN {} ELSE {Append(path, k)})
+    ELSE LET rg == Resolve(S, gs[1].t) IN
+         IF ~Has(v.ps, k) THEN (IF ~gs[1].req /\ (EmptyColl(ev) \/ EmptyColl(gs[1].def)) THEN {} ELSE {Append(path, k)})
+         ELSE IF rg.k = "struct" /\ ev.j = "obj" THEN InsidePaths(S, rg, ev, Get(v.ps, k), Append(path, k))
+         ELSE IF HoldsV(ev, Get(v.ps, k)) THEN {} ELSE {Append(path, k)}
+    : i \in DOMAIN e.ps}
 
 \* v: the JSON a real default constructor encoded to. Paths of the constrained fields that do not hold.
 RECURSIVE FailPaths(_, _, _, _)
@@ -88,7 +102,9 @@ FailPaths(S, t, v, path) ==
     LET f == t.fields[fi]
         r == Resolve(S, f.t) IN
     IF Constrained(S, f)
-    THEN IF FieldHolds(S, f, v) THEN {} ELSE {Append(path, f.n)}
+    THEN IF r.k = "struct" /\ HasDefault(f) /\ FieldExpect(S, f).j = "obj" /\ Has(v.ps, f.n)
+         THEN InsidePaths(S, r, FieldExpect(S, f), Get(v.ps, f.n), Append(path, f.n))
+         ELSE IF FieldHolds(S, f, v) THEN {} ELSE {Append(path, f.n)}
     ELSE IF r.k = "struct" /\ Has(v.ps, f.n) /\ Get(v.ps, f.n).j = "obj"
          THEN FailPaths(S, r, Get(v.ps, f.n), Append(path, f.n))
          ELSE {}
